@@ -391,7 +391,7 @@ PROPS = {
              "ring mode and number, how many of them were woken during the race, who took the second lock of "
              "wake_blocked_futures (poller / a waker / both / nobody), whether the poller blocked and whether an "
              "enter was interrupted in such a case; non-trivial = at least one "
-             "preemption; distinct by the Coq case term",
+             "preemption; distinct by the Coq case term; in a quarter of the default-ring cases with room for two entries the first waker thread queues an unrelated write right before its wake() (the wake message is then not at the head of the queue): those cases have no Coq term and are judged by the lost-wake-up oracle alone",
         assumptions=["API-level reading of the property (DESIGN.md §6 C11): a wake() targets the Ring::poll in "
                      "progress (called, not yet returned) at the wake's fetch_or, else the next one to start; the "
                      "stricter reading (target = a poll inside the kernel) is documented by "
@@ -873,3 +873,7 @@ PROPS["C12"]["also_drivers"] = PROPS["C12"]["also_drivers"] + ["C07"]
 # pool buffer the kernel selects): C10's driver and model run with C02's check too (seeded change
 # C02-p, a ReadNBuf override that forgot the transfer size, had been missed).
 PROPS["C02"]["also_drivers"] = PROPS["C02"]["also_drivers"] + ["C10"]
+# C04: how the ring's mappings are set up (sizes granted by the kernel, the advice given to each
+# mapping: MADV_DONTFORK keeps a forked child from becoming a submitter the lock does not cover) is
+# C18's construction model and driver; they run with C04's check too (seeded change C04-p).
+PROPS["C04"]["also_drivers"] = PROPS["C04"].get("also_drivers", []) + ["C18"]
